@@ -4,6 +4,7 @@ from fractions import Fraction as F
 from lib import Case, hx, doc_case, unhx
 import xmlcanon
 
+DOC_MODEL = True     # every generated document also runs through the composed Coq model of the whole transform
 RULE = ('translation validation: generated programs over <loop count|while|until>, <for>, <if>, groups, var updates, shapes positioned '
         'relative to the previous element (^), text using the loop variables, nested to depth 3, with fractional / negative start and step; '
         'each program is transformed together with its mechanically unrolled twin (loop-free, the loop variable assigned by <var>) and the '
